@@ -879,9 +879,9 @@ Definition blank_empty_obj (kv : str * value) : str * value :=
 
 (* ------------------------------------------------------------------------------------------------ *)
 (* 13. coverage phase: Template._serialize on the path container (generation/hypothesis/builder.py:   *)
-(*     305-320).  kwargs is a SHALLOW copy of the template, the serializer and quote_all assign into   *)
-(*     the dict they are given: the template itself keeps the serialized and quoted values, and the   *)
-(*     next coverage case starts from them.  _stringify_value builds a new dict (the output).         *)
+(*     305-321).  kwargs is a SHALLOW copy of the template.  The style serializer assigns into the    *)
+(*     dict it is given, i.e. into the template itself; quote_all works on a copy of it (since        *)
+(*     06d349e9) and _stringify_value builds a new dict (the output).                                 *)
 (* ------------------------------------------------------------------------------------------------ *)
 Definition stringify_v (v : value) : value :=
   match v with
@@ -889,16 +889,29 @@ Definition stringify_v (v : value) : value :=
   | VArr l => sval (join [44] (map js_str l))
   | VObj l => VObj (map (fun kv => (fst kv, PStr (js_str (snd kv)))) l)
   end.
+Definition stringify_item (it : item) : item := map (fun kv => (fst kv, stringify_v (snd kv))) it.
+(* (template after the case, path_parameters of the case) *)
 Definition template_step (defs : list definition) (tmpl : item) : option (item * item) :=
   obind (serialize3 defs tmpl)
-    (fun t1 => obind (quote_all t1)
-      (fun t2 => Some (t2, map (fun kv => (fst kv, stringify_v (snd kv))) t2))).
+    (fun t1 => obind (quote_all t1) (fun t2 => Some (t1, stringify_item t2))).
 (* path_parameters of the (n+1)-th case built from one template *)
 Fixpoint template_nth (defs : list definition) (n : nat) (tmpl : item) : option item :=
   match template_step defs tmpl with
   | None => None
   | Some (t', out) => match n with O => Some out | S m => template_nth defs m t' end
   end.
+
+(* SENTINEL - the rule before 06d349e9 (finding C06-F9, fixed): quote_all assigned into the template as well.
+   Kept only for the witness that tells the two rules apart; not used by the correspondence. *)
+Definition template_step_inplace (defs : list definition) (tmpl : item) : option (item * item) :=
+  obind (serialize3 defs tmpl)
+    (fun t1 => obind (quote_all t1) (fun t2 => Some (t2, stringify_item t2))).
+Fixpoint template_nth_inplace (defs : list definition) (n : nat) (tmpl : item) : option item :=
+  match template_step_inplace defs tmpl with
+  | None => None
+  | Some (t', out) => match n with O => Some out | S m => template_nth_inplace defs m t' end
+  end.
+
 (* values that quote_all leaves alone *)
 Definition quote_stable (s : str) : bool :=
   forallb always_safe s && negb (str_eqb s [46]) && negb (str_eqb s [46; 46]).
